@@ -77,6 +77,13 @@ func (k msgServer) RemoveRateLimit(goCtx context.Context, msg *types.MsgRemoveRa
 	}
 
 	k.Keeper.RemoveRateLimit(ctx, msg.Denom, msg.ChannelOrClientId)
+	// packets counted by the removed limit must not be undone against a limit that is added later
+	if err := k.RemoveAllChannelPendingSendPackets(ctx, msg.ChannelOrClientId, msg.Denom); err != nil {
+		return nil, err
+	}
+	if err := k.RemoveAllChannelPendingReceivePackets(ctx, msg.ChannelOrClientId, msg.Denom); err != nil {
+		return nil, err
+	}
 	return &types.MsgRemoveRateLimitResponse{}, nil
 }
 
